@@ -396,6 +396,10 @@ SPECS += [
          cmpops={("DT", "<", "DT"): "p_lt"}),
 ]
 
+from . import srcspecs_rec                     # recurrence.py: constructor, RRULE text, fetch dispatcher
+SPECS += srcspecs_rec.SPECS_REC
+HEADER = srcspecs_rec.HEADER_PRE + HEADER
+
 
 def regenerate(repo: Path, coq_dir: Path):
     """Rewrite Gen/Source.v if its content changed.  Returns ({name: error}, text)."""
